@@ -179,7 +179,16 @@ func parseSig(b []byte) (uint32, bool, []byte, error) {
 
 // split bytecode into head and b using length-prefixed integer
 func intSplit(b []byte) (uint32, []byte, error) {
+	if len(b) == 0 {
+		return 0, b, fmt.Errorf("argument is empty")
+	}
 	l := uint8(b[0])
+	if l > 4 {
+		return 0, b, fmt.Errorf("integer length %v too large", l)
+	}
+	if len(b) < int(l)+1 {
+		return 0, b, fmt.Errorf("corrupt instruction, len %v less than integer length: %v", len(b), l)
+	}
 	sz := uint32(l)
 	b = b[1:]
 	if l > 0 {
